@@ -43,6 +43,9 @@ FUNCS = [
     ("ubxhelpers.py", "key_from_val"), ("ubxhelpers.py", "msgstr2bytes"), ("ubxhelpers.py", "msgclass2bytes"),
     ("ubxhelpers.py", "cfgname2key"), ("ubxhelpers.py", "bytes2val"), ("ubxhelpers.py", "val2bytes"),
     ("ubxmessage.py", "UBXMessage.msg_cls"), ("ubxmessage.py", "UBXMessage.msg_id"), ("ubxmessage.py", "UBXMessage.msgmode"),
+    ("ubxmessage.py", "UBXMessage._calc_num_repeats"), ("ubxmessage.py", "UBXMessage._set_attribute"),
+    ("ubxmessage.py", "UBXMessage._set_attribute_group"), ("ubxmessage.py", "UBXMessage._set_attribute_single"),
+    ("ubxmessage.py", "UBXMessage._do_attributes"),
 ]
 
 
@@ -55,11 +58,12 @@ def enc(s: str) -> int:
 
 
 class Tr:
-    def __init__(self, params, kwparam=None):
+    def __init__(self, params, kwparam=None, value_lists=()):
         self.locals = set(params)
         self.names = {}
         self.kwparam = kwparam
         self.fresh_lists = set()
+        self.value_lists = set(value_lists)
 
     def nm(self, s):
         self.names[s] = enc(s)
@@ -178,6 +182,15 @@ class Tr:
             if any(isinstance(a, ast.Starred) for a in n.args) or len(star) > 1 or (
                     star and not (isinstance(star[0].value, ast.Name) and star[0].value.id == self.kwparam)):
                 self.bad(n, "star arguments")
+            d = self.dotted(n.func)
+            if d == "int" and len(n.args) == 1 and not n.keywords and isinstance(n.args[0], ast.BinOp) and isinstance(n.args[0].op, ast.Div):
+                # `int(a / b)`: true division is float arithmetic — one call the host gives its meaning to
+                return f"(.call {self.nm('__int_div__')} [{self.E(n.args[0].left)}, {self.E(n.args[0].right)}] [] [])"
+            if (d == "round" and len(n.args) == 2 and not n.keywords and isinstance(n.args[0], ast.BinOp)
+                    and isinstance(n.args[0].op, (ast.Mult, ast.Add))):
+                # `round(a * b, n)` / `round(a + b, n)` on possibly-float operands: likewise
+                f = "__round_mul__" if isinstance(n.args[0].op, ast.Mult) else "__round_add__"
+                return f"(.call {self.nm(f)} [{self.E(n.args[0].left)}, {self.E(n.args[0].right)}, {self.E(n.args[1])}] [] [])"
             # `f(a, b, **kwargs)` with the enclosing function's own `**kwargs`: the dictionary object travels as one more
             # positional argument (the callee's `**kwargs` parameter is its last parameter in the translation)
             args = self.lst([self.E(a) for a in n.args] + ([f"(.var {self.nm(self.kwparam)})"] if star else []))
@@ -228,6 +241,14 @@ class Tr:
                 # `x.append(e)` on a list this function created itself (`x = []`) and has not handed out: `x = x + [e]`
                 t = self.nm(c.func.value.id)
                 return f"(.assign {t} (.bin .add (.var {t}) (.tuple [{self.E(c.args[0])}])))"
+            if (isinstance(c, ast.Call) and isinstance(c.func, ast.Attribute) and isinstance(c.func.value, ast.Name)
+                    and c.func.value.id in self.value_lists and not c.keywords):
+                # a list parameter used linearly (see `linear_list_params`): in-place updates become rebindings
+                t = self.nm(c.func.value.id)
+                if c.func.attr == "append" and len(c.args) == 1:
+                    return f"(.assign {t} (.bin .add (.var {t}) (.tuple [{self.E(c.args[0])}])))"
+                if c.func.attr == "pop" and not c.args:
+                    return f"(.assign {t} (.call {self.nm('__droplast__')} [(.var {t})] [] []))"
             return f"(.expr {self.E(n.value)})"
         if isinstance(n, ast.Assign):
             if len(n.targets) != 1:
@@ -249,6 +270,11 @@ class Tr:
                 return r
             if isinstance(t, ast.Attribute):
                 return f"(.setAttr {self.E(t.value)} {self.nm(t.attr)} {self.E(n.value)})"
+            if (isinstance(t, ast.Subscript) and isinstance(t.value, ast.Name) and t.value.id in self.value_lists
+                    and isinstance(t.slice, ast.UnaryOp) and isinstance(t.slice.op, ast.USub)
+                    and isinstance(t.slice.operand, ast.Constant) and t.slice.operand.value == 1):
+                x = self.nm(t.value.id)     # `x[-1] = e`
+                return f"(.assign {x} (.call {self.nm('__setlast__')} [(.var {x}), {self.E(n.value)}] [] []))"
             self.bad(n, "assignment target")
         if isinstance(n, ast.AugAssign):
             ops = {ast.Add: "add", ast.Sub: "sub", ast.Mult: "mul", ast.BitAnd: "band", ast.BitOr: "bor",
@@ -318,6 +344,74 @@ class Tr:
         self.bad(n, "statement")
 
 
+def linear_list_params(tree, cls):
+    """List parameters of the methods of class `cls` that are used *linearly*: a method that updates such a list in place
+    returns it (second element of every returned tuple), and every caller that passes the list to such a method rebinds the
+    same name to the returned list in the same statement — `(off, x) = self.m(…, x, …)` — while methods that do not return it
+    never update it. Under that discipline no alias of the list is ever observed after an update, so `x.append(e)`,
+    `x[-1] = e`, `x.pop()` can be translated as rebinding `x` to a new immutable sequence. Returns {method: {param}} for the
+    updating methods; raises Untranslatable when the discipline is broken anywhere in the class."""
+    c = next((n for n in tree.body if isinstance(n, ast.ClassDef) and n.name == cls), None)
+    if c is None:
+        return {}
+    meths = {m.name: m for m in c.body if isinstance(m, ast.FunctionDef)}
+
+    def mutates(m, x, aug=False):
+        for n in ast.walk(m):
+            if (isinstance(n, ast.Call) and isinstance(n.func, ast.Attribute) and isinstance(n.func.value, ast.Name)
+                    and n.func.value.id == x and n.func.attr in ("append", "pop", "extend", "insert", "remove", "clear", "sort", "reverse")):
+                return True
+            if isinstance(n, (ast.Subscript,)) and isinstance(n.ctx, (ast.Store, ast.Del)) and isinstance(n.value, ast.Name) and n.value.id == x:
+                return True
+            if aug and isinstance(n, ast.AugAssign) and isinstance(n.target, ast.Name) and n.target.id == x:
+                return True        # `x += [...]` extends a list in place (for an int it is a rebinding: only listy names)
+        return False
+
+    def returns_it(m, x):
+        rets = [n for n in ast.walk(m) if isinstance(n, ast.Return)]
+        return bool(rets) and all(isinstance(r.value, ast.Tuple) and len(r.value.elts) == 2 and isinstance(r.value.elts[1], ast.Name)
+                                  and r.value.elts[1].id == x for r in rets)
+
+    out = {}
+    listy = {a.arg for m in meths.values() for a in m.args.args if mutates(m, a.arg)}
+    for name, m in meths.items():
+        for a in m.args.args:
+            if mutates(m, a.arg, a.arg in listy):
+                if not returns_it(m, a.arg):
+                    raise Untranslatable(f"{cls}.{name}: list parameter {a.arg} updated in place but not returned")
+                out.setdefault(name, set()).add(a.arg)
+    if not out:
+        return {}
+    lists = set().union(*out.values())
+    RET = {name for name, m in meths.items() for x in lists if any(a.arg == x for a in m.args.args) and returns_it(m, x)}
+    for name, m in meths.items():
+        parents = {}
+        for n in ast.walk(m):
+            for ch in ast.iter_child_nodes(n):
+                parents[ch] = n
+        for n in ast.walk(m):
+            if not (isinstance(n, ast.Call) and isinstance(n.func, ast.Attribute) and isinstance(n.func.value, ast.Name) and n.func.value.id == "self"):
+                continue
+            passed = [a.id for a in n.args if isinstance(a, ast.Name) and a.id in lists]
+            if not passed or n.func.attr not in meths:
+                continue
+            callee = n.func.attr
+            for x in passed:
+                if callee in RET:
+                    par = parents.get(n)
+                    ok = (isinstance(par, ast.Assign) and len(par.targets) == 1 and isinstance(par.targets[0], ast.Tuple)
+                          and len(par.targets[0].elts) == 2 and isinstance(par.targets[0].elts[1], ast.Name) and par.targets[0].elts[1].id == x)
+                    if not ok:
+                        raise Untranslatable(f"{cls}.{name}: {x} passed to {callee} without rebinding it to the returned list")
+                elif any(mutates(meths[callee], a.arg, True) for a in meths[callee].args.args if a.arg in lists):
+                    raise Untranslatable(f"{cls}.{name}: {callee} updates {x} in place without returning it")
+        # a second name for the list inside a method would be an alias
+        for n in ast.walk(m):
+            if isinstance(n, ast.Assign) and isinstance(n.value, ast.Name) and n.value.id in lists:
+                raise Untranslatable(f"{cls}.{name}: alias of list {n.value.id}")
+    return out
+
+
 def func_node(tree, qual):
     body, node = tree.body, None
     for p in qual.split("."):
@@ -357,7 +451,15 @@ def main():
             facts["untranslatable"][qual] = "*args"
         stored = {x.id for x in ast.walk(node) if isinstance(x, ast.Name) and isinstance(x.ctx, ast.Store)}
         stored |= {h.name for h in ast.walk(node) if isinstance(h, ast.ExceptHandler) and h.name}
-        tr = Tr(list(allp) + sorted(stored), a.kwarg.arg if a.kwarg else None)
+        try:
+            vl = set()
+            if "." in qual:
+                vl = linear_list_params(trees[fname], qual.split(".")[0]).get(qual.split(".")[1], set())
+        except Untranslatable as e:
+            facts["untranslatable"][qual] = str(e)
+            out.append(f"/-- `{qual}`: outside the translatable fragment: {e} -/\ndef {ident} : Fn := {{ params := [], body := [] }}")
+            continue
+        tr = Tr(list(allp) + sorted(stored), a.kwarg.arg if a.kwarg else None, vl)
         try:
             body = tr.B(node.body)
             legend = ", ".join(f"{k}={hex(v)}" for k, v in sorted(tr.names.items()))
